@@ -225,7 +225,7 @@ func randomVars(t *tape.Tape, names []string) map[string]interface{} {
 			// (reflection roots register a Go struct for Filter: Input.CoerceIn then
 			// builds it field by field through reflect)
 			f := map[string]interface{}{}
-			for _, k := range []string{"minAge", "names", "size", "tag", "limit"} {
+			for _, k := range []string{"minAge", "names", "size", "tag", "limit", "pair"} {
 				if t.Bool(1, 2) {
 					f[k] = val(1)
 				}
@@ -247,6 +247,9 @@ func randomVars(t *tape.Tape, names []string) map[string]interface{} {
 }
 
 var c03Adversarial = []string{
+	// a GraphQL list behind a fixed-size Go array of a registered input struct
+	"{ find(filter: {pair: [1, 2, 3, 4, 5]}) { name } tagged(filter: {pair: []}) }",
+	"query($f: Filter) { find(filter: $f) { name } a: tagged(filter: {pair: [1, null, 3]}) }",
 	// an inline fragment whose "on" is not followed by a type name
 	"{...on{title}}",
 	"{ ... on @skip(if: true) { title } }",
